@@ -212,7 +212,7 @@ class TdmsSegment(object):
         return metadata
 
     def raw_data_index(self, obj):
-        if hasattr(obj, 'data'):
+        if _has_raw_data(obj):
             data_type = Int32(obj.data_type.enum_value)
             dimension = Uint32(1)
             num_values = Uint64(len(obj.data))
@@ -250,14 +250,22 @@ class TdmsSegment(object):
     def _data_size(self):
         data_size = 0
         for obj in self.objects:
-            if hasattr(obj, 'data'):
+            if _has_raw_data(obj):
                 data_size += object_data_size(obj.data_type, obj.data)
         return data_size
 
     def _write_data(self, file):
         for obj in self.objects:
-            if hasattr(obj, 'data'):
+            if _has_raw_data(obj):
                 write_data(file, obj)
+
+
+def _has_raw_data(obj):
+    """ Whether raw data should be written for an object.
+        An empty array with a type that has no TDMS equivalent (for example an empty array
+        of strings or timestamps) has no determinable data type, so is written without raw data.
+    """
+    return hasattr(obj, 'data') and not (len(obj.data) == 0 and obj.data_type == Void)
 
 
 class TdmsObject(object):
